@@ -15,10 +15,11 @@ EXTENDS PageRules, Json, IOUtils
 
 Rec == ndJsonDeserialize(IOEnv.TRACE)
 
-VARIABLES l, reg, writer, lastCommit, maxDone, wtx
-tvars == <<l, reg, writer, lastCommit, maxDone, wtx>>
+VARIABLES l, reg, writer, lastCommit, maxDone, wtx,
+          before, left      \* release(): the pending entries (transaction ids) the code lists before / after its loop
+tvars == <<l, reg, writer, lastCommit, maxDone, wtx, before, left>>
 
-TInit == l = 1 /\ reg = <<>> /\ writer = 0 /\ lastCommit = -1 /\ maxDone = 0 /\ wtx = -1
+TInit == l = 1 /\ reg = <<>> /\ writer = 0 /\ lastCommit = -1 /\ maxDone = 0 /\ wtx = -1 /\ before = {} /\ left = {}
 
 Ev == Rec[l]
 Rep(rule, detail) == PrintT(ToJson([tag |-> "L2", line |-> l, rule |-> rule, detail |-> detail]))
@@ -31,6 +32,10 @@ RemoveOne(seq, x) ==
 
 Step ==
     /\ l <= Len(Rec) /\ l' = l + 1
+    /\ IF Ev.ev = "fl:release" THEN before' = {} /\ left' = {}
+       ELSE IF Ev.ev = "fl:pending" THEN before' = before \cup {Ev.tx} /\ left' = left
+       ELSE IF Ev.ev = "fl:pending_left" THEN left' = left \cup {Ev.tx} /\ before' = before
+       ELSE UNCHANGED <<before, left>>
     /\ CASE Ev.ev = "reset" ->
               reg' = <<>> /\ writer' = 0 /\ lastCommit' = Ev.txid /\ maxDone' = Ev.txid /\ wtx' = -1
          [] Ev.ev = "tx:locked" /\ Ev.w = 1 ->
@@ -42,6 +47,12 @@ Step ==
          [] Ev.ev = "fl:release" ->
               /\ Check(ReleaseBoundOK(Ev.bound, wtx, Snaps), "release-bound", <<Ev.bound, wtx, reg>>)
               /\ Check(Ev.bound >= MinOf(Snaps \cup {wtx}), "must-release", <<Ev.bound, wtx, reg>>)
+              /\ UNCHANGED <<reg, writer, lastCommit, maxDone, wtx>>
+         [] Ev.ev = "fl:released" ->
+              \* what release() really did (inside the registry critical section, so reg is exact)
+              /\ Check(\A t \in before \ left : t <= MinOf(Snaps \cup {wtx - 1}), "reader-page-released",
+                       <<before \ left, wtx, reg>>)
+              /\ Check(\A t \in left : t >= MinOf(Snaps \cup {wtx}), "must-release", <<left, wtx, reg>>)
               /\ UNCHANGED <<reg, writer, lastCommit, maxDone, wtx>>
          [] Ev.ev = "tx:registered" ->
               /\ Check(Ev.tx_id >= maxDone, "reader-snapshot-older-than-a-completed-commit", <<Ev.tid, Ev.tx_id, maxDone>>)
